@@ -108,9 +108,9 @@ class BaseColumnEnsembleClassifier(BaseClassifier, _HeterogenousMetaEstimator):
                 for (name, estimator, _), column in zip(self.estimators, self._columns)
             ]
 
-        # add transformer tuple for remainder
-        if self._remainder[2] is not None:
-            estimators = chain(estimators, [self._remainder])
+            # add transformer tuple for remainder (`estimators_` already has it)
+            if self._remainder[2] is not None:
+                estimators = chain(estimators, [self._remainder])
 
         for name, estimator, column in estimators:
             if replace_strings:
